@@ -27,6 +27,16 @@ def gen_null_xact(rng):
         return X.gen_plain(rng, elide=True)
     if rng.random() < 0.06:
         return X.gen_virtual_lot(rng, elide=True)
+    if rng.random() < 0.07:
+        # every commodity cancels exactly, the postings interleaved (a swap): the balance holds only exact-zero entries
+        # and the elided amount is 0
+        syms = rng.sample(list(X.COMMS), rng.choice([2, 2, 3]))
+        amts = [X.Amt.rand(rng, s_) for s_ in syms]
+        posts = [X.Post(X.acct_of(rng, 'R'), 'R', a) for a in amts] + [X.Post(X.acct_of(rng, 'R'), 'R', a.neg()) for a in amts]
+        if rng.random() < 0.3:
+            rng.shuffle(posts)
+        posts.insert(rng.randrange(0, len(posts) + 1), X.Post('Null:' + X.acct_of(rng, 'R'), 'R', None))
+        return X.Xact(posts)
     nother = rng.randrange(1, 7)
     syms = rng.sample(list(X.COMMS), rng.choice([1, 1, 2, 2, 3, 4]))
     posts = []
@@ -44,7 +54,7 @@ def gen_null_xact(rng):
                 cost = ('u', X.Amt(F(rng.randrange(1, 99999), 10 ** dec), dec, y))
             else:
                 cost = ('t', X.Amt(F(rng.randrange(1, 9999999), 10 ** dec), dec, y))
-        posts.append(X.Post(X.acct_of(rng, kd), kd, a, cost))
+        posts.append(X.Post(X.acct_of(rng, kd), kd, a, cost, vcost=(cost is not None and rng.random() < 0.3)))
     if rng.random() < 0.15 and len(posts) >= 2:
         # make one commodity cancel exactly: its zero entry stays in the balance
         p = next((q for q in posts if q.cost is None and q.must_balance()), None)
